@@ -134,6 +134,9 @@ func (g *G) genAction(f *FlowSpec, nd *nodeDraft, loc J) J {
 		"call_resthook", "call_classifier", "transfer_airtime", "start_session", "send_broadcast", "add_input_labels", "request_optin",
 	}
 	kind := kinds[t.Pick("actionkind", len(kinds))]
+	if g.P.ListHeavy && t.Chance("list_action", 1, 3) {
+		kind = []string{"send_broadcast", "start_session", "send_broadcast", "add_contact_groups", "add_input_labels", "send_email"}[t.Pick("list_action_kind", 6)]
+	}
 	if g.forceKind != "" {
 		kind = g.forceKind
 	}
@@ -393,9 +396,13 @@ func (g *G) otherContacts(a J) {
 	// every recipient kind independently (lists of several entries: the engine copies and
 	// appends to them per execution), at least one
 	have := false
-	if t.Chance("rc_contacts", 1, 3) {
+	num, den, extra := 1, 3, 0
+	if g.P.ListHeavy {
+		num, den, extra = 2, 3, 2
+	}
+	if t.Chance("rc_contacts", num, den) {
 		l := []any{}
-		for i, n := 0, 1+t.Pick("ncontacts", 5); i < n; i++ {
+		for i, n := 0, 1+extra+t.Pick("ncontacts", 5); i < n; i++ {
 			l = append(l, J{"uuid": UUID(kContact, 1+i), "name": fmt.Sprintf("Other %d", i)})
 		}
 		a["contacts"] = l
@@ -409,15 +416,15 @@ func (g *G) otherContacts(a J) {
 		a["contact_query"] = []string{"name = @contact.name", "age > @fields.age", "tel = @urns.tel", "name ~ @input.text", "@(1/0)"}[t.Pick("cquery", 5)]
 		have = true
 	}
-	if t.Chance("rc_urns", 1, 3) {
+	if t.Chance("rc_urns", num, den) {
 		l := []any{}
-		for i, n := 0, 1+t.Pick("nurns", 6); i < n; i++ {
+		for i, n := 0, 1+extra+t.Pick("nurns", 6); i < n; i++ {
 			l = append(l, fmt.Sprintf("tel:+1206555019%d", i))
 		}
 		a["urns"] = l
 		have = true
 	}
-	if t.Chance("rc_legacy", 1, 3) {
+	if t.Chance("rc_legacy", num, den) {
 		l := []any{}
 		for i, n := 0, 1+t.Pick("nlegacy", 2); i < n; i++ {
 			l = append(l, []string{"@contact.uuid", "@input.text", "Testers", "+12065550198", "@contact.urn", "@(contact.urns[0])"}[t.Pick("legacyvar", 6)])
